@@ -652,7 +652,7 @@ theorem binop_ptr_core (va vb : Option Nat) (aa ab : Nat) (la lb : Int) :
     let q := Obj.ptr vb ab lb
     binop U .add p q = spCombine U false p q ∧ binop U .sub p q = spCombine U false p q ∧
     binop U .mul p q = spCombine U true p q ∧ binop U .dot p q = spScalar U .npdot p q ∧
-    binop U .compare p q = spScalar U .npdot p q ∧ binop U .distance p q = spScalar U .npdot p q ∧
+    binop U .compare p q = spScalar U .npcmp p q ∧ binop U .distance p q = spScalar U .npcmp p q ∧
     binop U .mse p q = spScalar U .npsub p q := by
   refine ⟨rfl, ?_, rfl, rfl, rfl, rfl, rfl⟩
   simp only [binop, sub, add]
